@@ -113,10 +113,9 @@ func c02Scenarios(thorough bool) []c02Scn {
 			}
 		}
 	}
-	if os.Getenv("C02_REORG_BATCH3") != "" {
-		// experiment (not part of the check): the position rolled back by a reorg was recorded by a step of 3 blocks
-		out = []c02Scn{{Kind: "reorg", Shape: "L1", Batch: 3, Conc: 1, Fork: 2, NF: 1}, {Kind: "reorg", Shape: "T1", Batch: 2, Conc: 1, Fork: 2, NF: 1}}
-	}
+	// the position rolled back by the reorg was recorded by a step of several blocks (the rows of the whole
+	// batch have to go; found as a genuine defect of the pinned tree, repaired in /repo)
+	out = append(out, c02Scn{Kind: "reorg", Shape: "L1", Batch: 3, Conc: 1, Fork: 2, NF: 1}, c02Scn{Kind: "reorg", Shape: "T1", Batch: 2, Conc: 1, Fork: 2, NF: 1})
 	for _, bc := range [][2]int{{1, 1}, {3, 2}} {
 		out = append(out, c02Scn{Kind: "dep", Batch: bc[0], Conc: bc[1], NF: nf("dep", bc[0], bc[1], 0)})
 	}
